@@ -77,13 +77,13 @@ def ref_eval(s):
     def peek():
         return toks[p[0]][0] if p[0] < len(toks) else None
 
+    # the parser builds an AST first: syntax is judged before anything is evaluated
     def expr():
         v = term()
         while peek() in ('+', '-'):
             op = toks[p[0]][0]
             p[0] += 1
-            r = term()
-            v = v + r if op == '+' else v - r
+            v = (op, v, term())
         return v
 
     def term():
@@ -94,14 +94,8 @@ def ref_eval(s):
             p[0] += 1
             seen.add('i' if op == '\\' else 'm')
             if len(seen) > 1:
-                raise Undoc()
-            r = unary()
-            if op == '*':
-                v = v * r
-            elif op == '/':
-                v = v / r
-            else:
-                v = math.floor(v / r)
+                undoc[0] = True
+            v = (op, v, unary())
         return v
 
     def unary():
@@ -111,14 +105,14 @@ def ref_eval(s):
                 neg = not neg
             p[0] += 1
         v = primary()
-        return -v if neg else v
+        return ('neg', v) if neg else v
 
     def primary():
         t = peek()
         if t == 'n':
             v = toks[p[0]][1]
             p[0] += 1
-            return v
+            return ('num', v)
         if t == '(':
             p[0] += 1
             v = expr()
@@ -128,12 +122,32 @@ def ref_eval(s):
             return v
         raise Malformed()
 
+    def ev(a):
+        k = a[0]
+        if k == 'num':
+            return a[1]
+        if k == 'neg':
+            return -ev(a[1])
+        x, y = ev(a[1]), ev(a[2])
+        if k == '+':
+            return x + y
+        if k == '-':
+            return x - y
+        if k == '*':
+            return x * y
+        if k == '/':
+            return x / y
+        return math.floor(x / y)
+
+    undoc = [False]
     if not toks or s[-1] in ' \t\xa0':
         raise Undoc()       # empty / blank / trailing blank: not "built from numbers, operators, signs, parentheses"
-    v = expr()
+    ast = expr()
     if p[0] != len(toks):
         raise Malformed()
-    return v
+    if undoc[0]:
+        raise Undoc()
+    return ev(ast)
 
 
 def _api():
